@@ -53,6 +53,10 @@ func goExpr(v tlaval.Value) string {
 		return goAtom(r["l"]) + " + " + goAtom(r["r"])
 	case "mul":
 		return goAtom(r["l"]) + " * " + goAtom(r["r"])
+	case "twice":
+		return "twice(" + goAtom(r["l"]) + ")"
+	case "addmul":
+		return "addmul(" + goAtom(r["l"]) + ", " + goAtom(r["r"]) + ")"
 	}
 	return goAtom(v)
 }
@@ -80,13 +84,25 @@ func goStmt(v tlaval.Value, ind string) string {
 }
 
 var goRsize = 8
+var goGenCalls bool // the generated expressions may call functions (GoSubset.WithCalls)
 var goTupleCount int64 // tuple assignments printed (coverage)
 
 func goProgram(prog tlaval.Value, rsize int) string {
 	goRsize = rsize
 	typ := "uint" + strconv.Itoa(rsize)
 	var sb strings.Builder
-	sb.WriteString("package main\n\nimport (\n\t\"bondgo\"\n)\n\nfunc main() {\n")
+	sb.WriteString("package main\n\nimport (\n\t\"bondgo\"\n)\n\n")
+	var body strings.Builder
+	for _, s := range tlaval.AsSeq(prog) {
+		body.WriteString(goStmt(s, "\t"))
+	}
+	if strings.Contains(body.String(), "twice(") {
+		sb.WriteString("func twice(v " + typ + ") " + typ + " {\n\treturn v + v\n}\n\n")
+	}
+	if strings.Contains(body.String(), "addmul(") {
+		sb.WriteString("func addmul(a " + typ + ", b " + typ + ") " + typ + " {\n\tvar t " + typ + "\n\tt = a + b\n\treturn t * b\n}\n\n")
+	}
+	sb.WriteString("func main() {\n")
 	sb.WriteString("\tvar o0 bondgo.Output\n\tvar o1 bondgo.Output\n")
 	for _, v := range []string{"a", "b", "c"} {
 		sb.WriteString("\tvar reg_" + v + " " + typ + "\n")
@@ -245,9 +261,9 @@ func runC12(r *evid.Run) {
 		return genR(rsize, withIf, noAssign, 1, n, depth, seed)
 	}
 	genR = func(rsize int, withIf, noAssign bool, repeat, n, depth int, seed int64) bool {
-		dir := filepath.Join(scratch, fmt.Sprintf("gs_%d_%v_%v_%d", rsize, withIf, noAssign, repeat))
+		dir := filepath.Join(scratch, fmt.Sprintf("gs_%d_%v_%v_%d_%v", rsize, withIf, noAssign, repeat, goGenCalls))
 		os.MkdirAll(dir, 0o755)
-		cfg := fmt.Sprintf("SPECIFICATION Spec\nCONSTANTS\n RSize = %d\n MaxLen = %d\n WithIf = %s\n NoAssign = %s\n Repeat = %d\nINVARIANT TypeOK\nCHECK_DEADLOCK FALSE\n", rsize, depth, strings.ToUpper(fmt.Sprint(withIf)), strings.ToUpper(fmt.Sprint(noAssign)), repeat)
+		cfg := fmt.Sprintf("SPECIFICATION Spec\nCONSTANTS\n RSize = %d\n MaxLen = %d\n WithIf = %s\n NoAssign = %s\n Repeat = %d\n WithCalls = %s\nINVARIANT TypeOK\nCHECK_DEADLOCK FALSE\n", rsize, depth, strings.ToUpper(fmt.Sprint(withIf)), strings.ToUpper(fmt.Sprint(noAssign)), repeat, strings.ToUpper(fmt.Sprint(goGenCalls)))
 		_, err := tlc.Run(tlc.Options{SpecDir: specDir, Module: "GoSubset", CfgText: cfg, Workers: 1, Timeout: 15 * time.Minute,
 			Args: []string{"-simulate", fmt.Sprintf("file=%s/b,num=%d", dir, n), "-depth", strconv.Itoa(depth + repeat + 1), "-seed", strconv.FormatInt(seed, 10)}})
 		if err != nil {
@@ -273,6 +289,13 @@ func runC12(r *evid.Run) {
 		}
 		os.RemoveAll(dir)
 		return true
+	}
+	// programs whose expressions call functions (twice: registers only; addmul: a local in memory)
+	goGenCalls = true
+	okCalls := gen(8, false, false, r.Pick(30, 300), 7, r.Seed*11+7)
+	goGenCalls = false
+	if !okCalls {
+		return
 	}
 	if !gen(8, false, false, r.Pick(40, 400), 8, r.Seed*11+1) || !gen(16, false, false, r.Pick(15, 200), 8, r.Seed*11+2) ||
 		!gen(8, false, true, r.Pick(15, 120), 6, r.Seed*11+4) || !gen(8, true, false, r.Pick(25, 150), 5, r.Seed*11+3) {
@@ -359,7 +382,8 @@ func runC12(r *evid.Run) {
 	r.Set("scheduled_compilations", int64(len(runInfos)))
 
 	// ---- semantic half -----------------------------------------------------------------------------------
-	var compiled, compared, rejectedSrc int64
+	var compiled, compared, rejectedSrc, hdlCompared, memoryPrograms int64
+	hdlBudget := int64(r.Pick(60, 400))
 	rejectKinds := map[string]int{}
 	for i, g := range progs {
 		src := goProgram(g.prog, g.rsize)
@@ -377,8 +401,45 @@ func runC12(r *evid.Run) {
 		}
 		compiled++
 		nInstr := strings.Count(res.asmText, "\n") + 1
+		ctx := map[string]interface{}{"source": src, "assembly": res.asmText, "expected": g.outs}
+		// the generated hardware of the requested machine: the values each external output shows, in order
+		// (a value written twice in a row shows once)
+		usesMemory := strings.Contains(src, "addmul(")
+		// (a program that writes nothing has nothing to show; its processor has output ports and no
+		// instruction that drives them, which the hardware generator renders with undeclared signals)
+		if (hdlCompared < hdlBudget || usesMemory) && len(g.outs) > 0 {
+			shown, herr := hdlOutputChanges(res.bmJSON, 60*nInstr+300)
+			want := [][]uint64{{0}, {0}}
+			for _, ov := range g.outs {
+				if o := int(ov[0]); o < 2 && want[o][len(want[o])-1] != ov[1] {
+					want[o] = append(want[o], ov[1])
+				}
+			}
+			ctx["hardware_shows"], ctx["source_shows"] = shown, want
+			switch {
+			case herr != nil && strings.Contains(herr.Error(), "unsupported"):
+				r.Add("programs_whose_hardware_the_interpreter_cannot_run", 1)
+			case herr != nil:
+				r.Violate("emitted-machine-hardware-not-executable", fmt.Sprintf("the generated hardware of the machine bondgo emitted cannot be executed: %v", herr), ctx)
+			case len(shown) < 2 || fmt.Sprint(shown[0]) != fmt.Sprint(want[0]) || fmt.Sprint(shown[1]) != fmt.Sprint(want[1]):
+				sig := "wrong-output:hardware"
+				if g.withIf {
+					sig = "wrong-output:program-uses-=="
+				}
+				r.Violate(sig, fmt.Sprintf("the generated hardware of the compiled program shows %v on its outputs, the source writes %v (rsize %d)", shown, want, g.rsize), ctx)
+				hdlCompared++
+			default:
+				hdlCompared++
+			}
+		}
+		if usesMemory {
+			// (the simulator has no RAM, recorded under C01: such programs are judged on the hardware only)
+			memoryPrograms++
+			r.Distinct("sem|" + src)
+			continue
+		}
 		got, err := simulateOutputs(res.bmJSON, 3*nInstr+20)
-		ctx := map[string]interface{}{"source": src, "assembly": res.asmText, "expected": g.outs, "simulated": got}
+		ctx["simulated"] = got
 		if err != nil {
 			r.Violate("emitted-machine-not-simulable", fmt.Sprintf("the machine bondgo emitted cannot be simulated: %v", err), ctx)
 			continue
@@ -586,6 +647,8 @@ func runC12(r *evid.Run) {
 	r.Set("feature_catalogue_compilations", featureRuns)
 	r.Set("programs", int64(len(progs)+len(loopProgs)))
 	r.Set("programs_compiled", compiled)
+	r.Set("programs_compared_on_the_generated_hardware", hdlCompared)
+	r.Set("programs_with_a_local_in_memory", memoryPrograms)
 	r.Set("programs_compared", compared)
 	r.Set("programs_rejected_by_compiler", rejectedSrc)
 	r.Set("compiler_rejections", rejectKinds)
